@@ -64,6 +64,10 @@ CHECKS["C06"] = (MC,
     "The corpus under a sweep of max_request_header_size / max_request_body_size (tiny, size-1/size/size+1, defaults) and pumped sentences (each repeatable grammar position x10, x100, x1000) judged by TLC with Framing.tla: a message that reaches a limit or is malformed is never delivered, gets exactly one error response out of 400/413/431/501 fitting the fault, is followed by closure, and the server stops consuming. Totality (no exception, no hang - a watchdog interrupts code that does not return -, bounded consumption) is observed on all of these and on pumped sentences of 10^4..10^5 bytes. The refusal is also explored under concurrency (scheduler) with the Pipeline monitor.",
     "DESIGN.md 6 (C06)", _fr + "; 'never raises / never hangs' is observed, not proved", _ft + "; watchdog for hangs; scheduler exploration for the refusal under concurrency")
 
+CHECKS["C07"] = (MC,
+    "Canonically well-formed requests (header-name vocabulary with dash/underscore aliases, case variants and names that map onto CGI variables; values with obs-text, interior whitespace, padding, empty; repeated fields; every target form incl. valid and invalid percent escapes; empty / small / spilled-to-tempfile / chunked bodies with trailers; pipelines) x url_prefix x TCP and unix peers run on the real server; for every application call TLC computes the expected environ image from the reference parse of the same bytes (Framing.tla + Trace_Environ.tla): each field once under its CGI name joined by ', ' in arrival order, underscore names absent, Transfer-Encoding removed and CONTENT_LENGTH = decoded length for chunked bodies, REQUEST_METHOD / SERVER_PROTOCOL / SCRIPT_NAME / PATH_INFO / QUERY_STRING, wsgi.input = framed body; server-defined variables unchanged by client fields; identical under three segmentations.",
+    "DESIGN.md 3.3, 6 (C07)", _fr + "; Python string types are checked by the harness", _ft)
+
 EXP = "exploration"
 _chan_note = "trusted: TLC (judging), the simulated kernel and scheduler shims (Lock/Condition/select/poll/pipe semantics), the independent response lexer wv/httpclient.py; schedule coverage on the code is bounded (all schedules with <= 1 pre-emption up to a limit, sampled beyond)"
 _chan_tech = "deterministic schedule exploration of the real server (bounded DFS + PCT/pre-emption sampling) with TLC trace validation against the TLA+ property monitor Pipeline.tla"
